@@ -389,6 +389,26 @@ fn cmd_png_grid() {
     println!("{{\"cmd\":\"png-grid\",\"bound\":\"gray depths 1,2,4,8 and RGB8; widths 1,2,3,7,8,9,16,17; heights 1-3; filter types 0-4; pseudo-random samples\",\"evaluated\":{},\"disagreements\":[{}],\"subbyte_total\":{},\"subbyte_wrong\":{}}}", evaluated, bad.join(","), subbyte_total, subbyte_rejected);
 }
 
+// C30 Eb: user-chosen resource names in drawing operators: draw_image(name) -> content stream -> parser -> same name
+fn cmd_opnames() {
+    use oxidize_pdf::parser::content::{ContentOperation, ContentParser};
+    let names = ["Im1", "A_b-1.x", "A B", "A/B", "A(B", "A#B", "A%B", "\u{e9}"];
+    let mut wrong = 0u64; let mut ex: Vec<String> = vec![]; let mut plain_wrong = 0u64;
+    for name in names {
+        let r = panic::catch_unwind(|| {
+            let mut page = oxidize_pdf::Page::a4();
+            { let g = page.graphics(); g.draw_image(name, 0.0, 0.0, 10.0, 10.0); }
+            let content = page_content_bytes(page)?;
+            let ops = ContentParser::parse(&content).ok()?;
+            Some(ops.into_iter().filter_map(|op| match op { ContentOperation::PaintXObject(n) => Some(n), _ => None }).collect::<Vec<_>>())
+        });
+        let ok = matches!(&r, Ok(Some(v)) if v.len() == 1 && v[0] == name);
+        let regular = name.bytes().all(|b| b.is_ascii_alphanumeric() || b == b'_' || b == b'-' || b == b'.');
+        if !ok { if regular { plain_wrong += 1; } else { wrong += 1; } if ex.len() < 4 { ex.push(format!("{{\"name\":{},\"read_back\":{}}}", js(name), js(&format!("{:?}", r.map_err(|_| "PANIC"))))); } }
+    }
+    println!("{{\"cmd\":\"opnames\",\"bound\":\"8 names incl. space, '/', '(', '#', '%', non-ASCII through GraphicsContext::draw_image\",\"evaluated\":{},\"disagreements\":{},\"irregular_wrong\":{},\"examples\":[{}]}}", names.len(), plain_wrong, wrong, ex.join(","));
+}
+
 fn main() {
     let args: Vec<String> = std::env::args().collect();
     panic::set_hook(Box::new(|_| {}));
@@ -398,6 +418,7 @@ fn main() {
         Some("a85hex") => cmd_a85hex(args.get(2).and_then(|s| s.parse().ok()).unwrap_or(5)),
         Some("a85hex-roundtrip") => cmd_a85hex_roundtrip(args.get(2).and_then(|s| s.parse().ok()).unwrap_or(4)),
         Some("fmt") => cmd_fmt(),
+        Some("opnames") => cmd_opnames(),
         Some("png-grid") => cmd_png_grid(),
         Some("png") => {
             // png <hex of a PNG file>: Image::from_png_data on it
